@@ -36,12 +36,20 @@ def oracle_pg(R, tier, seed):
         M = float(rng.uniform(0.1, 0.92)); v = float(rng.uniform(50, 250)); rho = float(rng.uniform(0.3, 1.2))
         names = ["s%d" % i for i in range(nsurf)]
 
-        def run(meshes_, comp, alpha_=alpha, beta_=beta, M_=M):
+        # every other full-span case also rotates (roll, pitch and yaw rates about a centre of gravity off the origin): the
+        # Prandtl-Glauert scaling of the rotational onset velocity ([B^2, B, B] in wind axes) is what makes it the velocity field
+        # of a rigid rotation omega' = diag(1, B, B) T omega about cg' = diag(1, B, B) T cg in the transformed domain
+        rot = bool(all_full and it % 2 == 1)
+        omega = rng.normal(size=3) * np.array([0.3, 0.4, 0.25]) if rot else None
+        cg0 = rng.normal(size=3) * np.array([1.0, 0.2, 0.3]) if rot else np.zeros(3)
+
+        def run(meshes_, comp, alpha_=alpha, beta_=beta, M_=M, omega_=omega, cg_=cg0):
             surfs = [aero.aero_surface(m, name=nm, symmetry=s) for m, nm, s in zip(meshes_, names, syms)]
-            p = aero.run(aero.build_aero(surfs, v=v, alpha=alpha_, beta=beta_, Mach=M_, rho=rho, compressible=comp))
+            p = aero.run(aero.build_aero(surfs, v=v, alpha=alpha_, beta=beta_, Mach=M_, rho=rho, compressible=comp, rotational=rot, omega=omega_, cg=tuple(cg_)))
             return [aero.g(p, "aero.aero_states.%s_sec_forces" % nm) for nm in names], aero.g(p, "aero.CL")
         Fc, CLc = run(meshes, True)
-        desc = {"surfaces": ["sym" if s else "full" for s in syms], "alpha": alpha, "beta": beta, "Mach": M, "seed": seed, "it": it}
+        desc = {"surfaces": ["sym" if s else "full" for s in syms], "alpha": alpha, "beta": beta, "Mach": M, "seed": seed, "it": it,
+                "omega_rad_s": (omega.tolist() if rot else None), "cg": cg0.tolist()}
         # explicit construction (full-span surfaces only: the rotated/stretched mesh of a symmetric half is still a valid half mesh only at beta = 0)
         if all_full:
             B = np.sqrt(1 - M * M); T = _Tw(np.deg2rad(alpha), np.deg2rad(beta))
@@ -51,7 +59,8 @@ def oracle_pg(R, tier, seed):
             # the PG-domain solve uses transformed normals n_pg; an incompressible AeroPoint on the PG mesh uses recomputed normals n'.
             # n_pg is parallel to n' (a plane n.x = 0 maps to (B n_x, n_y, n_z)/B . x' = 0), so the tangency condition and hence
             # the circulations are the same up to the row scaling |n_pg|; forces in the PG domain are then identical.
-            Fi, _ = run(pgm, False, alpha_=0.0, beta_=0.0)
+            Sd = np.array([1.0, B, B])
+            Fi, _ = run(pgm, False, alpha_=0.0, beta_=0.0, omega_=(Sd * (T @ omega) if rot else None), cg_=Sd * (T @ cg0))
             bad = {}
             for i in range(nsurf):
                 Fb = Fi[i] * np.array([1 / B ** 4, 1 / B ** 3, 1 / B ** 3]) @ T      # row vectors: (T^T F^T)^T = F T
